@@ -112,7 +112,7 @@ def oracle(res, cux, ComplexS, s, rng):
         try:
             d1 = [(list(a), list(b)) for a, b in cux.rotate_complex_db(list(seq), list(sst), turns=1)]
             p1 = [(copy.deepcopy(a), copy.deepcopy(b)) for a, b in cux.rotate_complex_pt(copy.deepcopy(st0), copy.deepcopy(pt0), turns=1)]
-            jn = [(a, b) for a, b in cux.rotate_complex_db(list(seq), list(sst), join=True)] if all(len(x) == 1 for x in seq) else None
+            jn = [(a, b) for a, b in cux.rotate_complex_db(list(seq), list(sst), join=True)]; res.count('join_form_checked')
             if d1 != [dbrots[1 % n]] or p1 != [ptrots[1 % n]] or (jn is not None and jn != [(''.join(a), ''.join(b)) for a, b in dbrots]):
                 res.violation('rotation-generators:turns-or-join-argument', {'op': ['rotpt', s]},
                               'turns=1: %r' % (d1,), 'one forced rotation; join=True gives the joined list form')
